@@ -219,7 +219,10 @@ def case(ctx, rnd, i):
                     b = rnd.randint(a, n)
                     if name == "resolve":
                         rp = doc.resolve(a)
-                        res = [rp.node_before, rp.node_after, rp.marks(), rp.parent]
+                        rq = doc.resolve(b)
+                        res = [rp.node_before, rp.node_after, rp.marks(), rp.parent, rp.marks_across(rq), rq.marks_across(rq),
+                               rp.block_range(rq), rp.shared_depth(b)]
+                        res = [x for x in res if not isinstance(x, (int, type(None))) and not hasattr(x, "depth")]
                     elif name == "slice":
                         res = [doc.slice(a, b), doc.slice(a, b, True)]
                     elif name == "cut":
